@@ -34,6 +34,8 @@ var Styles = []string{"csv", "html", "json", "markdown", "ascii-simple", "none",
 //	         registered name or an unknown one; Reuse = by object (SetDecoration of the named decoration, or of the
 //	         empty decoration for an unknown name), else by name (SetDecorationNamed) - and renders: what it gives
 //	         depends on the decoration selected last, not on what was selected before
+//	realign  change what a column (I; 0 = the defaults column) says for alignment (Key: 0 remove, 1 left, 2 right,
+//	         3 centre): from then on that is part of the content (fresh references are built with it)
 //	faulty   render in Style into a writer that fails at write FaultK in mode FaultMode (the render must fail);
 //	         the wrapper (reused or fresh) and the table must be none the worse for it
 type Act struct {
@@ -270,9 +272,13 @@ var siblingOnce sync.Once
 // and another table has been rendered under that name before: tables do not meet through a name.
 const sharedTemplateName = "c14-shared"
 
+var namings int
+
 func named(rw auto.RenderTable) auto.RenderTable {
 	if ht, ok := rw.(*html.HTMLTable); ok {
-		ht.TemplateName = sharedTemplateName
+		// the name is a label: it changes from use to use, also on a wrapper that has rendered already
+		namings++
+		ht.TemplateName = sharedTemplateName + []string{"", "-b"}[namings%2]
 	}
 	return rw
 }
@@ -284,6 +290,10 @@ func CheckCase(c Case) *ev.Violation {
 		sib.AddHeaders("sibling", "table")
 		sib.AddRowItems("rendered", "first")
 		sib.Render()
+		sib2 := html.New()
+		sib2.TemplateName = sharedTemplateName + "-b"
+		sib2.AddRowItems("another")
+		sib2.Render()
 	})
 	t, m := gen.Build(c.Script)
 	settings(t, c)
@@ -304,12 +314,19 @@ func CheckCase(c Case) *ev.Violation {
 	}
 	refs := map[string]ref{}
 	var extra []gen.Op // mutations applied so far: part of the content from then on
+	type realign struct{ col, val int }
+	var realigns []realign // alignment changes applied so far, in order
 	reference := func(style string) ref {
 		if r, ok := refs[style]; ok {
 			return r
 		}
 		rt, _ := gen.Build(gen.Script{Ops: append(append([]gen.Op{}, c.Script.Ops...), extra...)})
 		settings(rt, c)
+		for _, ra := range realigns {
+			if ra.col <= rt.NColumns() {
+				rt.Column(ra.col).SetProperty(align.PropertyType, gen.AlignOf(ra.val))
+			}
+		}
 		o, e := auto.Render(rt, style)
 		refs[style] = ref{o, e}
 		return refs[style]
@@ -341,12 +358,24 @@ func CheckCase(c Case) *ev.Violation {
 				refs = map[string]ref{}
 				// the content changed on purpose: new baseline for the counts; settings reach new columns too
 				settings(t, c)
+				for _, ra := range realigns {
+					if ra.col <= t.NColumns() {
+						t.Column(ra.col).SetProperty(align.PropertyType, gen.AlignOf(ra.val))
+					}
+				}
 				w.recordCols()
 				w.nrows = len(m.Rows)
 				if m.MaxEver > w.ncols {
 					w.ncols = m.MaxEver
 				}
 			}
+		case "realign":
+			col := mod(a.I, w.ncols+1)
+			val := mod(a.Key, 4)
+			t.Column(col).SetProperty(align.PropertyType, gen.AlignOf(val))
+			realigns = append(realigns, realign{col, val})
+			refs = map[string]ref{}
+			w.recordCols()
 		case "restyle":
 			if kept == nil {
 				kept = texttable.Wrap(t)
@@ -400,7 +429,7 @@ func CheckCase(c Case) *ev.Violation {
 				if long[a.Style] == nil {
 					long[a.Style] = named(auto.Wrap(t, a.Style))
 				}
-				rw = long[a.Style]
+				rw = named(long[a.Style])
 			} else {
 				rw = named(auto.Wrap(t, a.Style))
 			}
@@ -415,7 +444,7 @@ func CheckCase(c Case) *ev.Violation {
 				if long[a.Style] == nil {
 					long[a.Style] = named(auto.Wrap(t, a.Style))
 				}
-				rw = long[a.Style]
+				rw = named(long[a.Style])
 			} else {
 				rw = named(auto.Wrap(t, a.Style))
 			}
